@@ -105,8 +105,51 @@ def main(tier):
                   dict(stack="comp", offset=5, seed=seed() + 4, entropy="low", level=0, pieces=[7, 1, 50]),
                   dict(stack="comp+enc", offset=3, seed=seed() + 5, level=11, level_of_model="prop"),
                   dict(stack="raw", offset=9, seed=seed() + 6, level_of_model="prop")], ev)
+    # code -> spec at PRODUCTION constants: targeted lengths, seeded seek/read histories, validated against ByteStream
+    CH, BL = 131072, 4194304
+    jobs = []
+    lens_enc = [0, 1, 15, 16, 17] + [k * CH + d for k in (1, 2, 3) for d in (0, 1, -1, 15, -15, 16, -16, 17, -17)]
+    lens_comp = [0, 1, 4095] + [k * BL + d for k in (1, 2) for d in (0, 1, -1)] + [CH, CH + 1]
+    if tier == "thorough":
+        lens_enc += [k * CH + d for k in (4, 32, 33) for d in (0, 1, -1, 16, -16)]
+        lens_comp += [3 * BL + d for d in (0, 1, -1)] + [BL + CH + d for d in (0, 1, -1)]
+    for i, l in enumerate(lens_enc):
+        jobs.append(dict(stack="enc", L=l, seed=seed() + i, offset=(i % 3) * 105, nops=60))
+    for i, l in enumerate(lens_comp):
+        jobs.append(dict(stack="comp", L=l, seed=seed() + 50 + i, offset=0, nops=40))
+        jobs.append(dict(stack="comp+enc", L=l, seed=seed() + 90 + i, offset=105, nops=40))
+    for i, l in enumerate([0, 1, 4096, CH]):
+        jobs.append(dict(stack="raw", L=l, seed=seed() + 130 + i, offset=7 * i, nops=40))
+    wd = workdir("c11-prod")
+    jp = os.path.join(wd, "jobs.jsonl")
+    shards = [jobs[i::6] for i in range(6)]
+    build("prod")
+
+    def tr(i):
+        p = os.path.join(wd, f"jobs{i}.jsonl")
+        t = os.path.join(wd, f"trace{i}.ndjson")
+        write_jsonl(p, shards[i])
+        mbt("prod", "layers-trace", p, t, timeout=3000)
+        acc, tinfo, tres = validate_trace("TraceStream", "TraceStream.cfg", t, f"c11-ts{i}", timeout=1500)
+        return t, acc, tinfo, tres
+
+    from concurrent.futures import ThreadPoolExecutor
+    with ThreadPoolExecutor(max_workers=6) as ex:
+        trs = list(ex.map(tr, range(6)))
+    nev = 0
+    for t, acc, tinfo, tres in trs:
+        if not tinfo or tinfo.get("matched") != tinfo.get("len"):
+            raise ToolError(f"TraceStream did not consume {t}: {tres.error_text[:500]}")
+        nev += tinfo["len"]
+        ev["states"] += tres.distinct
+        for b in tinfo.get("bad", []):
+            v.violation(dict(check="stream-trace", module="TraceStream", stack=b["stack"], kind=b["what"], L=b["L"], te=False,
+                             op=b["got"].get("whence", "read")), dict(engine="layers-trace", profile="prod", trace=t, line=b["line"], event=b["got"]))
+    ev["prod_events"] = nev
+    ev["prod_runs"] = len(jobs)
+    log(f"[C11] production constants: {len(jobs)} recorded runs ({nev} events) validated against ByteStream by TLC")
     cov = dict(states=ev["states"], transitions=ev["transitions"],
-               traces_validated_against_impl=ev["runs"], samples=ev["samples"][:3] or ["none"],
+               traces_validated_against_impl=ev["runs"] + ev.get("prod_runs", 0), production_constant_events=ev.get("prod_events", 0), samples=ev["samples"][:3] or ["none"],
                edges_exported=ev["edges"], steps_replayed=ev["steps"], hidden_state_steps_compared=ev["hidden"],
                drift=ev["drifts"], drift_samples=ev["drift_samples"][:3], tlc_runs=ev["tlc"], constants=ev["constants"],
                exhaustive=(ev["drifts"] == 0 and not v.violations),
